@@ -127,7 +127,8 @@ def programs(ctx, n_exhaustive, n_random, private=False):
     ctx.exhaustive['multi_name_declaration_programs'] = len(decl)
     short = scopegen.short_named(ex[:ctx.scale(250, 3000)] + sib[:ctx.scale(40, 210)])
     imp = scopegen.import_programs()
-    par = scopegen.parameter_programs() + scopegen.capture_programs() + scopegen.class_import_programs()[::(1 if ctx.tier == 'thorough' else 3)]
+    par = ([('every-binding-form', scopegen.EVERY_BINDING)] + scopegen.parameter_programs() + scopegen.capture_programs()
+           + scopegen.class_import_programs()[::(1 if ctx.tier == 'thorough' else 3)])
     priv = scopegen.private_name_programs() if private else []      # name mangling is a C03 matter (known finding F30)
     return decl + imp + par + priv + scopegen.export_programs() + sib + short + ex + rnd
 
